@@ -246,7 +246,9 @@ def run_history_here(case):
     elif kind == 'sql_again':
       res1, rules, program = do_compile(req, op[2], rules=parsed.get(op[1]))
       out.append({'op': op, 'result': res1, 'clock_moved': clock.moved, 'request': [op[1], op[2]]})
-      if program is not None and 'error' not in res1:
+      # also after a failed first request: the caller caught the diagnostic and goes on using
+      # the program object
+      if program is not None:
         res2, _, _ = do_compile(req, op[3], program=program)
         out.append({'op': op, 'result': res2, 'clock_moved': clock.moved, 'request': [op[1], op[3]],
                     'second_on_same_program': True})
@@ -608,9 +610,12 @@ def gen_request(r, scratch, idx, kind=None):
             'T3(k: a, s? List= {%s: c, %s: b}) distinct :- D(a:, b:, c:);\n' % (f[4], f[5]) +
             'T4(m? ArgMin= b -> a) distinct :- D(a:, b:);\n'
             'T7(k: a, m? ArgMax= l -> a) distinct :- D(a:, b:), l == [a, a + 1];\n'
+            'Inner(x) = r.%s :- r == {%s: x, %s: 1};\n' % (f[6], f[6], f[7]) +
+            'T8(Inner(a)) :- D(a:, b:);\n'
+            'T9(a, FlagValue("no_such_flag")) :- D(a:);\n'
             'T5(x: r.%s, y: s) :- T1(r:), T3(k: x0, s:), x0 == r.%s;\n' % (f[0], f[0]) +
             'T6(t: {%s: a, %s: {%s: b}}) :- D(a:, b:);\n' % (f[6], f[7], f[0]))
-    preds = r.sample(['T1', 'T2', 'T3', 'T4', 'T5', 'T6', 'T7'], 4)
+    preds = r.sample(['T1', 'T2', 'T3', 'T4', 'T5', 'T6', 'T7', 'T8', 'T9', 'T9'], 5)
   elif kind == 'functor':
     n = r.randint(1, 4)
     lines = ['@Engine("%s");' % r.choice(ENGINES), 'A(1); A(2); B(3); B(5);',
